@@ -212,9 +212,29 @@ static void exec_line(char *line) {
     if (!rc) {
       uint64_t dg, c; int nd; iwrc r3 = digest(k2, &dg, &c, &nd);
       printf(" dig=%s:%016" PRIx64 ":%" PRIu64 ":%d", rcname(r3), dg, c, nd);
-      g_trigger |= IWKVD_WAL_NO_CHECKPOINT_ON_CLOSE;
-      iwkv_close(&k2);
-      g_trigger &= ~IWKVD_WAL_NO_CHECKPOINT_ON_CLOSE;
+      // the recovered store must be usable: one more record, a savepoint, a regular close (with its checkpoint), reopen, read it back
+      const char *post = "ok";
+      IWDB pdb = 0; iwrc r4 = r3 ? r3 : iwkv_db(k2, 1, 0, &pdb);
+      IWKV_val pk = { .data = "zz-after-recovery", .size = 17 }, pv = { .data = "x", .size = 1 }, gv = { 0 };
+      if (!r4) r4 = iwkv_put(pdb, &pk, &pv, 0);
+      if (!r4) r4 = iwkv_sync(k2, 0);
+      if (r4) post = r3 ? "unread" : "use-failed";
+      r4 = iwkv_close(&k2);
+      if (r4 && !strcmp(post, "ok")) post = "close-failed";
+      if (!strcmp(post, "ok")) {
+        IWKV k3 = 0; r4 = iwkv_open(&o, &k3);
+        if (r4) post = "reopen-failed";
+        else {
+          r4 = iwkv_db(k3, 1, 0, &pdb);
+          if (!r4) r4 = iwkv_get(pdb, &pk, &gv);
+          if (r4 || gv.size != 1) post = "record-lost";
+          if (!r4) iwkv_val_dispose(&gv);
+          uint64_t d2, c2; int nd2; iwrc r5 = digest(k3, &d2, &c2, &nd2);
+          if (!strcmp(post, "ok") && (r5 || c2 != c + 1)) post = "contents-changed";
+          iwkv_close(&k3);
+        }
+      }
+      printf(" post=%s", post);
     }
     printf("\n");
   } else if (!strcmp(w[0], "roll") && n == 6 && L_wal) {  // roll <work.db> <mode 1|2> <crc> <cut> <flips>: _rollforward_exl alone
